@@ -49,6 +49,7 @@ pub fn canary_neg(a: i32) -> i32 { -a }
 pub fn canary_wrapping(a: i32, b: i32) -> i32 { a.wrapping_add(b) }
 // R10.noexit0
 pub fn canary_exit() { std::process::exit(0) }
+pub fn canary_println() { println!("note"); }
 pub fn canary_eprintln() { eprintln!("note"); }
 pub fn canary_catch() { let _r = std::panic::catch_unwind(|| 1); }
 // R10.nounsafe
